@@ -212,6 +212,41 @@ theorem appender_emitRData (t : Nat) (d : RData) (hm : d.emitModelled = true) : 
     simp only [List.mem_cons, List.not_mem_nil, or_false] at hf
     rcases hf with rfl | rfl | rfl | rfl | rfl
     all_goals first | exact appender_emitU16 _ | exact appender_emitU8 _ | exact appender_emitSlice _
+  case key flags proto alg k =>
+    refine seqAll_appender _ ?_
+    intro f hf
+    simp only [List.mem_cons, List.not_mem_nil, or_false] at hf
+    rcases hf with rfl | rfl | rfl | rfl
+    all_goals first | exact appender_emitU16 _ | exact appender_emitU8 _ | exact appender_emitSlice _
+  case naptr order pref flags services regexp n =>
+    refine appender_withRdataBehavior (seqAll_appender _ ?_) _
+    intro f hf
+    simp only [List.mem_cons, List.not_mem_nil, or_false] at hf
+    rcases hf with rfl | rfl | rfl | rfl | rfl | rfl
+    · exact appender_emitU16 _
+    · exact appender_emitU16 _
+    · exact appender_emitCharacterData _
+    · exact appender_emitCharacterData _
+    · exact appender_emitCharacterData _
+    · exact appender_emitName _
+  case sig covered alg labels ottl exp inc tag signer sg =>
+    refine appender_withRdataBehavior (seqAll_appender _ ?_) _
+    intro f hf
+    simp only [List.mem_cons, List.not_mem_nil, or_false] at hf
+    rcases hf with rfl | rfl
+    · refine appender_withRdataBehavior (seqAll_appender _ ?_) _
+      intro g hg
+      simp only [List.mem_cons, List.not_mem_nil, or_false] at hg
+      rcases hg with rfl | rfl | rfl | rfl | rfl | rfl | rfl | rfl
+      · exact appender_emitU16 _
+      · exact appender_emitU8 _
+      · exact appender_emitU8 _
+      · exact appender_emitU32 _
+      · exact appender_emitU32 _
+      · exact appender_emitU32 _
+      · exact appender_emitU16 _
+      · exact appender_emitName _
+    · exact appender_emitSlice _
   case caa cr rs tag v =>
     refine appender_withRdataBehavior (seqAll_appender _ ?_) _
     intro f hf
